@@ -76,6 +76,8 @@ class Built:
     def cls(self, t):
         if self.cfg.get('twins'):
             return U.TwinT
+        if self.cfg.get('mainmod'):
+            return sys.modules['__main__'].MainT
         y = self.cfg['typ'][t - 1]
         mp = self.cfg['maxpar'][y - 1]
         fmt = (self.cfg.get('tfmt') or ['pickle'] * 9)[y - 1]
@@ -181,6 +183,12 @@ def prepare_storage(cfg: dict, storage: Storage, shape_seed: int = 0):
     lab.run_tasks(tasks, disable_progress=True, disable_top=True)
     drop = [built.make(t) for t in range(1, cfg['n'] + 1) if t not in cfg['cached0']]
     lab.uncache_tasks(drop)
+    for t in cfg.get('badload', []):
+        # the entry stays reported as cached (metadata intact) but its result can no longer be read
+        task = built.make(t)
+        fn = getattr(task._lt.cache, 'RESULT_FILENAME', 'data.pickle')
+        with storage.file_handle(task.cache_key, fn, mode='wb') as f:
+            f.write(b'\x80')
 
 
 def walk_instances(req_objs):
